@@ -22,6 +22,17 @@ CLAIMS = {
         ),
         design_ref="DESIGN.md §4 C09",
     ),
+    "C13": dict(
+        technique="static analysis: interprocedural must-pass-through (typestate guard) dataflow over ast CFGs; instances derived from write-effect summaries",
+        text=(
+            "Decides that the guards implementing the documented typestate are in place on every path: each public Sequence method whose write summary touches the timeline passes the "
+            "measured rejection before its first timeline write (instances are derived from the effect analysis, so a new timeline-writing method is an instance automatically); "
+            "add/target/target_index pass _validate_channel(block_eom_mode=True), EOM controls pass the is_in_eom_mode rejections with the right polarity; inspection calls pass the "
+            "parametrized rejection; the declare-once / XY-exclusivity / target-before-pulse rejection atoms exist. It does not explore call sequences: which histories are accepted is a "
+            "runtime question; only the presence and dominance of the guards is decided."
+        ),
+        design_ref="DESIGN.md §4 C13",
+    ),
 }
 
 NOT_YET = {
